@@ -85,7 +85,23 @@ def ctr_factory_contract(name, route, cl=None):
                     # domain: what Counter.new returns (its contract below): 0 <= initial_value < 256**counter_len
                     requires=["0 <= %s['initial_value'] and %s['initial_value'] < %d" % (ctr, ctr, 256 ** cl)],
                     raises={'TypeError': ('only_if', tfault), 'ValueError': ('only_if', vfault)}, ensures=ensures, modifies=['kwargs'],
+                    lemmas={'exit': counter_lemmas(ctr, cl)},
                     opaque=['spec.modes.key_len_ok'])
+
+
+def counter_lemmas(ctr, cl):
+    """stepwise proof (DESIGN 2.6) of the byte assembly loop: the code shifts right by 8 bits per byte, the spec divides by 256**k.
+    Per byte k: one ground instance of (x // 256**k) // 256 == x // 256**(k+1), then "the k-th least significant word is byte k of the
+    value" (words[] is little endian before the optional reverse), finally the joined string; each proved on its own, in order"""
+    iv = "old(%s['initial_value'])" % ctr
+    out = {}
+    for k in range(cl):
+        if k >= 1:
+            out['div%02d' % k] = '(%s // %d) // 256 == %s // %d' % (iv, 256 ** (k - 1), iv, 256 ** k) if k > 1 else 'True'
+        out['byte%02d' % k] = '(words[%d] if little_endian else words[%d]) == bytes([(%s // %d) %% 256])' % (k, cl - 1 - k, iv, 256 ** k)
+    if cl:
+        out['joined'] = "b''.join(words) == (i2le(%s, %d) if little_endian else i2osp(%s, %d))" % (iv, cl, iv, cl)
+    return out
 
 
 def counter_new_contract(nbits=None):
